@@ -111,7 +111,7 @@ def rand_coord(rng, big=False):
     elif k < 0.95:
         v = Fr(rng.randint(-64 * 300, 64 * 900), 64)
     else:
-        v = Fr(rng.choice([-16000, 16000, -15999, 12345])) + rng.choice([0, Fr(1, 2)])
+        v = Fr(rng.choice([-4000, 4000, -3999, 3456])) + rng.choice([0, Fr(1, 2)])
     return v
 
 
@@ -164,3 +164,41 @@ def rand_transform(rng, classes=None, offset=True):
     else:
         dx, dy = Fr(0), Fr(0)
     return name, m + (dx, dy)
+
+
+def gen_component_font(rng, n=None, kinds=("line", "curve", "qcurve"), max_depth=4, classes=None,
+                       mixed=True, anchors=False, widths="mixed", singular=False):
+    """random glyph set with a component DAG: glyph i may reference glyphs j < i.
+    Returns desc with 'glyphs' (names g00.. plus a few real names), every number a Fraction."""
+    n = n or rng.randint(3, 12)
+    names = rand_names(rng, n)
+    glyphs, depth = [], {}
+    for i, nm in enumerate(names):
+        g = {"name": nm, "unicodes": [], "contours": [], "components": [], "anchors": []}
+        k = rng.random()
+        cands = [m for m in names[:i] if depth[m] < max_depth]
+        if i == 0 or k < 0.35 or not cands:
+            for _ in range(rng.randint(1, 3)):
+                g["contours"].append(rand_contour(rng, kinds))
+        else:
+            if mixed and rng.random() < 0.3:
+                g["contours"].append(rand_contour(rng, kinds))
+            for _ in range(rng.randint(1, 3)):
+                b = rng.choice(cands)
+                cls, t = rand_transform(rng, classes)
+                if singular and rng.random() < 0.1:
+                    t = (Fr(1), Fr(2), Fr(2), Fr(4)) + t[4:]
+                g["components"].append((b, t))
+        depth[nm] = 1 + max([depth[b] for b, _ in g["components"]], default=-1)
+        if widths == "mixed":
+            w = rng.choice([Fr(500), Fr(0), Fr(rng.randint(0, 2000)), Fr(rng.randint(0, 4000), 2) + Fr(1, 2),
+                            Fr(rng.randint(0, 8000), 4)])
+        else:
+            w = Fr(rng.randint(0, 1000))
+        g["width"] = w
+        if anchors and rng.random() < 0.6:
+            for an in rng.sample(["top", "bottom", "_top", "ogonek", "top_1", "top_2", "entry", "exit"], rng.randint(1, 3)):
+                g["anchors"].append((an, rand_coord(rng), rand_coord(rng)))
+        glyphs.append(g)
+    rng.shuffle(glyphs)  # definition order != dependency order
+    return {"glyphs": glyphs, "glyphOrder": None}
